@@ -46,7 +46,7 @@ def run(ctx):
     # model prediction vs code on the enumerated cases (creation accepted / executed): drift only
     ev = vlib.read_ndjson(tr)
     created = sum(1 for e in ev if e["op"].startswith("create_") and e["ok"] and e["step"] in ("order", "into"))
-    want = sum(1 for c in cases if c["dir"] != "from" and c["created"])
+    want = sum(1 for c in cases if c["dir"] in ("order", "into") and c["created"])
     if created != want:
         ctx.note("creation accepted %d order/deposit cases, the specification %d" % (created, want))
         ctx.drift += abs(created - want)
